@@ -342,7 +342,15 @@ class MultiSystem(object):
                 else:
                     if kind == "ack" and sn not in (99, None):
                         self.problems.append(("injected-ack-carries-other-tag", {"request": k, "tag": sn}))
+    def _prune_held(self):
+        """A request the server stack has given up on (application timeout: the transaction is gone) is no longer being
+        processed; the harness' server application stops holding it."""
+        for mac, app in self.servers.items():
+            app.held = [h for h in app.held
+                        if any(tr.invokeID == h.apduInvokeID and tr.pdu_address == h.pduSource for tr in app.smap.serverTransactions)]
+
     def _observe_rest(self):
+        self._prune_held()
         # live invoke ids distinct per peer, as the real stack sees them
         for ci, app in enumerate(self.clients):
             seen = set()
@@ -368,6 +376,7 @@ class MultiSystem(object):
                     self.problems.append(("indication-at-wrong-server-or-from-wrong-client", {"server": mac, "from": src, "tag": sn}))
         # while a request is held by the server application a duplicate must not be indicated again (any config)
         for mac, app in self.servers.items():
+            # (entries whose transaction the stack abandoned were pruned before the indication that is judged here)
             held_keys = [(str(h.pduSource), h.apduInvokeID) for h in app.held]
             if len(held_keys) != len(set(held_keys)):
                 self.problems.append(("duplicate-request-indicated-while-original-held", {"server": mac, "held": held_keys}))
